@@ -10,4 +10,5 @@ P1s == [p \in {"a"} |-> <<"Send", "Read">>]
 P2sw == [p \in {"a", "b"} |-> IF p = "a" THEN <<"Send", "Send">> ELSE <<"Write", "Read">>]
 P2f == [p \in {"a", "b"} |-> IF p = "a" THEN <<"RemoveFail", "Send", "Write">> ELSE <<"WriteFail", "Read", "Remove">>]
 P2t == [p \in {"a", "b"} |-> IF p = "a" THEN <<"Send", "Thresh", "Send">> ELSE <<"Send", "Read">>]
+P2rw == [p \in {"a", "b"} |-> IF p = "a" THEN <<"Read", "Read", "Send">> ELSE <<"Write", "Read">>]
 =============================================================================
